@@ -174,7 +174,13 @@ func runC14Seq(t *c14Task) *c14Result {
 				how   string
 			}
 			var its []heldIt
+			var stale iterator.Iterator
 			if i == len(seq)-1 && op != "reset" {
+				// an iterator released before the others are created; its handle is released a second
+				// time ("can be called multiple times") while they are live
+				stale = db.NewIterator(nil)
+				stale.First()
+				stale.Release()
 				for _, fwd := range []bool{true, false} {
 					starts := []string{"First", "Last"}
 					for _, p := range c14Probes {
@@ -203,6 +209,9 @@ func runC14Seq(t *c14Task) *c14Result {
 				res.Viol = append(res.Viol, fmt.Sprintf("sequence %v step %d: %s", seq, i, v))
 				return
 			}
+			if stale != nil {
+				stale.Release()
+			}
 			if len(its) > 0 {
 				ever := map[string]bool{}
 				for _, o := range seq {
@@ -229,6 +238,9 @@ func runC14Seq(t *c14Task) *c14Result {
 								ok = h.it.Prev()
 							}
 							if !ok {
+								if err := h.it.Error(); err != nil {
+									return fmt.Sprintf("stopped with error %v", err)
+								}
 								return ""
 							}
 							k, val := string(h.it.Key()), string(h.it.Value())
